@@ -6,7 +6,7 @@ interleaved with failing compilations, from 16 goroutines, and in separate proce
 import hashlib, json, os, random, subprocess
 import vlib, progs, regen
 
-THEOREMS = ["C18_every_map_range_is_modelled", "C18_set_update", "C18_analyze_cells", "C18_update1", "C18_update2",
+THEOREMS = ["C18_every_map_range_is_modelled", "C18_set_update", "C18_analyze_cells", "C18_update1", "C18_update2", "C18_sorted_keys",
             "C18_analyze_block", "C18_find", "C18_invert", "C18_token_values_distinct", "C18_no_nondeterminism_source",
             "C18_no_state_left_behind"]
 
@@ -21,6 +21,10 @@ FAILING = [
  "def f():\n    global a\n    a = 1\n    def g():\n        nonlocal a\n",
  "x = [i for i in range(3) if (lambda: (i, *j))]\n",
  "for x in y:\n    def f():\n        continue\n",
+ "def f(a, b, c, d):\n    global a\n    global b\n    global c\n    global d\n",
+ "def f(zz, yy, xx):\n    def g(p, q, r, s):\n        nonlocal p, q, r, s\n    global zz, yy, xx\n",
+ "def f():\n    def g():\n        nonlocal n1, n2, n3, n4, n5\n        global n1, n2, n3\n",
+ "x1 = x2 = x3 = 0\ndef f(x1, x2, x3, x4):\n    global x4, x3, x2, x1\n    nonlocal x1\n",
 ]
 
 def sources(seed, tier):
